@@ -106,11 +106,30 @@ def run(ck, fb):
                 out.append(s0)
         return out
     n_mut = 0
-    for b in sorted([x for x in fb.find('^' + re.escape(INM)) if not x.parent], key=lambda x: x.name):
+    methods = sorted([x for x in fb.find('^' + re.escape(INM)) if not x.parent], key=lambda x: x.name)
+
+    def direct_muts(b):
+        return [s0.bb for s0 in util.mut_calls_on_field(b, 'all_nodes', r'BTreeMap::<K, V, A>::(insert|remove|entry|retain)$')] + \
+               [bb for (o, f, bb, st) in b.field_writes() if f == 'status' and o.endswith('ClusterInnerNode')]
+    mutators = {b.name for b in methods if direct_muts(b) and b.name.split('::')[-1] not in ('new', 'get_this_node')}
+    # a private helper that changes the node list for its caller (extract-method) is judged at its call sites: it is exempt from its own
+    # obligation when it is only called by methods of InnerNodeManage, and a call of it counts as a change in the caller
+    callers = {}
+    for b in methods:
+        for s0 in b.sites:
+            t = util._local_target(b, s0)
+            if t is not None and t.name in mutators and t.name != b.name:
+                callers.setdefault(t.name, []).append((b, s0))
+    for b in methods:
         fn = b.name.split('::')[-1]
-        muts = [s0.bb for s0 in util.mut_calls_on_field(b, 'all_nodes', r'BTreeMap::<K, V, A>::(insert|remove|entry)$')]
+        muts = [s0.bb for s0 in util.mut_calls_on_field(b, 'all_nodes', r'BTreeMap::<K, V, A>::(insert|remove|entry|retain)$')]
         stw = [bb for (o, f, bb, st) in b.field_writes() if f == 'status' and o.endswith('ClusterInnerNode')]
+        muts += [s0.bb for s0 in b.sites if (util._local_target(b, s0) is not None and util._local_target(b, s0).name in callers
+                                             and util._local_target(b, s0).name != b.name)]
         if fn in ('new', 'get_this_node') or not (muts or stw):
+            continue
+        if b.name in callers and not any(b.name in (s1.resolved or s1.callee or '') for x in fb.bodies.values() if not x.name.startswith(INM) for s1 in x.sites):
+            ck.ok('R14d', '%s:helper-judged-at-call-sites' % fn, b.where(), 'called by %s' % sorted(set(c[0].name.split('::')[-1] for c in callers[b.name])))
             continue
         n_mut += 1
         ck.analysed(b)
